@@ -232,6 +232,11 @@ VAL_EXPRS = [
     ("x => x + 1", FN), ("(p, q?) => p", FN), ("sum", FN), ("abs(-4)", 4.0),
     ("if 1 < 2 then 10 else 20", 10.0), ("do {\n  t = 4\n  return t * 2\n}", 8.0), ("[1, 2] via (v => v * 2)", [2.0, 4.0]),
     ("((p) => p + 1)(2)", 3.0),
+    # functions that are portable although their own (self) name is not a top-level binding: recursive functions
+    # named inside a do-block or a factory and output under another name; closures over locals; aliases
+    ("do {\n  loop9 = n => if n <= 0 then 0 else loop9(n - 1)\n  return loop9\n}", FN),
+    ("(() => do {\n  rec9 = n => if n <= 0 then [] else [n, ...rec9(n - 1)]\n  return rec9\n})()", FN),
+    ("((base) => (x => x + base))(10)", FN), ("[v => v, sum][0]", FN), ("{f: (a, ...r) => r}.f", FN),
 ]
 # statements that make the run fail: (source template, kind)
 FAIL_EVAL = ['1 + "s"', "nosuch", "output q9 = nosuch", "output nosuch2", "null(1)", "[1, 2](0)", '"a" * 2',
